@@ -302,7 +302,7 @@ def apply_array_fault(rows, n_bins, meta, items, W, H, lo, hi, fault):
         else:
             r[0] = _clip(1 + rnd.randrange(len(items)), lo, hi)
     elif kind == "move_bin":
-        r[1] = _clip(rnd.randint(1, nbi + 1), lo, hi)
+        r[1] = _clip(rnd.randint(1, max(1, nbi + 1)), lo, hi)
     elif kind == "new_bin_gap":
         r[1] = _clip(nbi + rnd.choice([2, 3]), lo, hi)
     elif kind == "n_bins_off":
